@@ -146,6 +146,16 @@ PARAMS_B = [
     ((1,), "weight", 1),
     ((16, 16), "weight", None),
     ((2, 8, 1), "weight", None),
+    # several parameters of ONE call sharing (tag, shape) but not depth, or shape but not tag
+    ((3, 7), "weight", None),
+    ((3, 7), "weight", 64),
+    ((6,), "bias", None),
+    ((9,), "bias", 2),
+    ((11, 13), "output", None),
+    ((11, 13), "weight", 64),
+    ((7, 3), "weight", 5),
+    ((16, 16), "weight", 4),
+    ((16, 16), "output", 4),
 ]
 
 
